@@ -65,6 +65,88 @@ def ipport_pairing(ctx, P, rule, crates):
     return n
 
 
+STRATEGY = {"try_ethernet": "ethernet", "try_ethernet_format": "ethernet", "try_raw_ip": "raw-ip", "try_raw_ip_format": "raw-ip",
+            "try_null_datalink": "null", "try_null_datalink_format": "null"}
+
+
+def _strategy_order(P, b):
+    """order in which a link-layer dispatcher tries its interpretations"""
+    from ..engine import cfg as C
+    from ..engine import tables as TB
+    direct = []
+    for blk, t in b.calls():
+        nm = callee_of(t).rsplit("::", 1)[-1]
+        if nm in STRATEGY:
+            direct.append((blk, STRATEGY[nm]))
+    if len(direct) >= 2:
+        # topological order by reachability
+        out = []
+        rest = list(direct)
+        while rest:
+            firsts = [x for x in rest if not any(y is not x and C.reaches(b, y[0], x[0]) and not C.reaches(b, x[0], y[0]) for y in rest)]
+            firsts = firsts or rest[:1]
+            firsts.sort()
+            out.append(firsts[0][1])
+            rest.remove(firsts[0])
+        if len(direct) >= 3:
+            return out
+    # combinator chain: a.or_else(|| b).or_else(|| c)
+
+    def order(t):
+        t = T.strip(t)
+        if t[0] == "call":
+            nm = t[1].rsplit("::", 1)[-1]
+            if nm in STRATEGY:
+                return [STRATEGY[nm]]
+            if nm in ("or_else", "or", "xor", "map", "and_then", "or_insert_with") and t[2]:
+                seq = order(t[2][0])
+                for a in t[2][1:]:
+                    a = T.strip(a)
+                    if a[0] == "agg" and a[1] == "closure" and a[2] in P.bodies:
+                        cb = P.bodies[a[2]]
+                        for _, ct in cb.calls():
+                            cn = callee_of(ct).rsplit("::", 1)[-1]
+                            if cn in STRATEGY:
+                                seq.append(STRATEGY[cn])
+                    else:
+                        seq += order(a)
+                return seq
+            out2 = []
+            for a in t[2]:
+                out2 += order(a)
+            return out2
+        if t[0] in ("phi",):
+            return [y for x in t[1] for y in order(x)]
+        if t[0] in ("field", "downcast", "ref", "deref", "cast"):
+            return order(t[1] if t[0] != "ref" else t[2])
+        if t[0] == "agg":
+            return [y for x in t[4] for y in order(x)]
+        return []
+    seqs = [order(term) for (_, _, term, _c) in TB.return_sites(b, P)]
+    seqs = [x for x in seqs if x]
+    return max(seqs, key=len) if seqs else [d[1] for d in direct]
+
+
+def link_layer_order(ctx, P, rule, crates):
+    """The quick extractor used by the filter and the full packet parser interpret a frame the same way: both try Ethernet, then raw
+    IP, then NULL/loopback framing (an Ethernet frame whose first MAC nibble is 4 or 6 also passes the raw-IP probe; trying raw IP first
+    makes the filter - or the analyzer - look at MAC bytes instead of the real endpoints)."""
+    want = ["ethernet", "raw-ip", "null"]
+    n = 0
+    for crate in crates:
+        for mod, fn in (("raw_filter", "extract_quick_info"), ("packet_parser", "parse_packet")):
+            b = P.bodies.get("%s::%s::%s" % (crate, mod, fn))
+            if b is None:
+                continue
+            n += 1
+            got = _strategy_order(P, b)
+            ctx.check(got == want, rule, "link-layer-order:%s::%s::%s" % (crate.replace("huginn_net", "hn"), mod, fn), "tries " + " -> ".join(want),
+                      "%s::%s tries the link-layer interpretations in the order %s (expected %s): an Ethernet frame to a MAC address starting with nibble 4 or 6 is read as a raw IP "
+                      "packet, so this component sees different endpoints than its counterpart" % (mod, fn, got, want), ctx.loc(b))
+    ctx.floor(rule, "link-layer dispatchers", n, len(crates))
+    return n
+
+
 def tcp_from_payload(ctx, P, rule, crates):
     """The TCP segment handed to the analyzers is the IP packet's payload (bounded by the IP total length), not the rest of the
     captured buffer: link-layer padding never becomes TCP data."""
